@@ -117,6 +117,56 @@ fn c07q_str_needs_quoting_len0_1() {
 // `str::contains(&str)` runs std's two-way string searcher, which CBMC cannot execute in reasonable time
 // even on concrete input.  The positional rules of `str_needs_quoting` are therefore NOT checked.
 
+// ---------------------------------------------------------------- the quoted form
+struct OutBuf { bytes: [u8; 16], len: usize }
+impl std::fmt::Write for OutBuf {
+    fn write_str(&mut self, s: &str) -> std::fmt::Result {
+        let b = s.as_bytes();
+        let mut i = 0;
+        while i < b.len() {
+            if self.len >= 16 { return Err(std::fmt::Error); }
+            self.bytes[self.len] = b[i];
+            self.len += 1;
+            i += 1;
+        }
+        Ok(())
+    }
+}
+
+fn check_form(raw: &str, expected: &[u8]) {
+    use std::fmt::Write as _;
+    let mut out = OutBuf { bytes: [0; 16], len: 0 };
+    let r = write!(out, "{}", quoted(raw));
+    assert!(r.is_ok());
+    assert!(out.len == expected.len(), "length of the quoted form");
+    let mut i = 0;
+    while i < expected.len() {
+        assert!(out.bytes[i] == expected[i], "the quoted form, byte by byte");
+        i += 1;
+    }
+}
+
+/// XCU 2.2.3: inside double quotes the backslash escapes exactly $ ` " \ ; a text with a single quote must
+/// be double-quoted and each of those four characters escaped.
+#[kani::proof]
+#[kani::unwind(18)]
+fn c07q_double_quoted_form_escapes() {
+    check_form("'$", b"\"'\\$\"");
+    check_form("'`", b"\"'\\`\"");
+    check_form("'\"", b"\"'\\\"\"");
+    check_form("'\\", b"\"'\\\\\"");
+    check_form("'a", b"\"'a\"");
+}
+
+#[kani::proof]
+#[kani::unwind(18)]
+fn c07q_single_quoted_and_bare_forms() {
+    check_form("a b", b"'a b'");
+    check_form("$x", b"'$x'");
+    check_form("", b"''");
+    check_form("ab", b"ab");
+}
+
 // native replay of a Kani counterexample (bin/vcheck replay): the generated test is included here
 #[cfg(verif_playback)]
 include!("/verif/work/k/playback/quote_quote_harness.rs");
